@@ -216,6 +216,7 @@ static std::string run(const std::vector<std::string> &t) {
     if (op == "resize") { a.resize((size_t) num(2)); return finish("ok"); }
     if (op == "resizev") { { Elem v(mkElem(num(3))); a.resize((size_t) num(2), v); } return finish("ok"); }
     if (op == "resizeself") { a.resize((size_t) num(2), a[(size_t) num(3)]); return finish("ok"); }
+    if (op == "resizefrom") { a.resize((size_t) num(2), obj(3)[(size_t) num(4)]); return finish("ok"); }
     if (op == "set") { a[(size_t) num(2)] = mkElem(num(3)); return finish("ok"); }
     if (op == "get") {
         const Arr &ca = a;   // both overloads, and the iterator arithmetic
